@@ -84,11 +84,11 @@
              (iterm (select L (+ lo (- n 1))) (ite wn 1 (select W (+ wo (- n 1)))) A))))
      :pattern ((isum L lo W wo wn A n)))))
 ;@lemma isum_ext
-(assert (forall ((L1 (Array Int Int)) (W1 (Array Int Int)) (L2 (Array Int Int)) (W2 (Array Int Int)) (lo Int) (wo Int) (wn Bool) (A (Array Int Bool)) (n Int))
-  (! (=> (and (forall ((j Int)) (! (=> (and (<= lo j) (< j (+ lo n))) (= (select L1 j) (select L2 j))) :pattern ((select L1 j)) :pattern ((select L2 j))))
-              (or wn (forall ((j Int)) (! (=> (and (<= wo j) (< j (+ wo n))) (= (select W1 j) (select W2 j))) :pattern ((select W1 j)) :pattern ((select W2 j))))))
-         (= (isum L1 lo W1 wo wn A n) (isum L2 lo W2 wo wn A n)))
-     :pattern ((isum L1 lo W1 wo wn A n) (isum L2 lo W2 wo wn A n)))))
+(assert (forall ((L1 (Array Int Int)) (lo1 Int) (W1 (Array Int Int)) (wo1 Int) (L2 (Array Int Int)) (lo2 Int) (W2 (Array Int Int)) (wo2 Int) (wn Bool) (A (Array Int Bool)) (n Int))
+  (! (=> (and (forall ((j Int)) (! (=> (and (<= lo1 j) (< j (+ lo1 n))) (= (select L1 j) (select L2 (+ lo2 (- j lo1))))) :pattern ((select L1 j))))
+              (or wn (forall ((j Int)) (! (=> (and (<= wo1 j) (< j (+ wo1 n))) (= (select W1 j) (select W2 (+ wo2 (- j wo1))))) :pattern ((select W1 j))))))
+         (= (isum L1 lo1 W1 wo1 wn A n) (isum L2 lo2 W2 wo2 wn A n)))
+     :pattern ((isum L1 lo1 W1 wo1 wn A n) (isum L2 lo2 W2 wo2 wn A n)))))
 ;@lemma isum_update_L
 (assert (forall ((L (Array Int Int)) (j Int) (v Int) (lo Int) (W (Array Int Int)) (wo Int) (wn Bool) (A (Array Int Bool)) (n Int))
   (! (= (isum (store L j v) lo W wo wn A n)
@@ -153,11 +153,11 @@
              (pterm (select L (+ lo (- n 1))) (ite wn 1 (select W (+ wo (- n 1)))) A))))
      :pattern ((psum L lo W wo wn A n)))))
 ;@lemma psum_ext
-(assert (forall ((L1 (Array Int Int)) (W1 (Array Int Int)) (L2 (Array Int Int)) (W2 (Array Int Int)) (lo Int) (wo Int) (wn Bool) (A (Array Int Bool)) (n Int))
-  (! (=> (and (forall ((j Int)) (! (=> (and (<= lo j) (< j (+ lo n))) (= (select L1 j) (select L2 j))) :pattern ((select L1 j)) :pattern ((select L2 j))))
-              (or wn (forall ((j Int)) (! (=> (and (<= wo j) (< j (+ wo n))) (= (select W1 j) (select W2 j))) :pattern ((select W1 j)) :pattern ((select W2 j))))))
-         (= (psum L1 lo W1 wo wn A n) (psum L2 lo W2 wo wn A n)))
-     :pattern ((psum L1 lo W1 wo wn A n) (psum L2 lo W2 wo wn A n)))))
+(assert (forall ((L1 (Array Int Int)) (lo1 Int) (W1 (Array Int Int)) (wo1 Int) (L2 (Array Int Int)) (lo2 Int) (W2 (Array Int Int)) (wo2 Int) (wn Bool) (A (Array Int Bool)) (n Int))
+  (! (=> (and (forall ((j Int)) (! (=> (and (<= lo1 j) (< j (+ lo1 n))) (= (select L1 j) (select L2 (+ lo2 (- j lo1))))) :pattern ((select L1 j))))
+              (or wn (forall ((j Int)) (! (=> (and (<= wo1 j) (< j (+ wo1 n))) (= (select W1 j) (select W2 (+ wo2 (- j wo1))))) :pattern ((select W1 j))))))
+         (= (psum L1 lo1 W1 wo1 wn A n) (psum L2 lo2 W2 wo2 wn A n)))
+     :pattern ((psum L1 lo1 W1 wo1 wn A n) (psum L2 lo2 W2 wo2 wn A n)))))
 ;@lemma psum_update_L
 (assert (forall ((L (Array Int Int)) (j Int) (v Int) (lo Int) (W (Array Int Int)) (wo Int) (wn Bool) (A (Array Int Bool)) (n Int))
   (! (= (psum (store L j v) lo W wo wn A n)
@@ -213,3 +213,30 @@
 (assert (forall ((L (Array Int Int)) (lo Int) (W1 (Array Int Int)) (wo1 Int) (W2 (Array Int Int)) (wo2 Int) (A (Array Int Bool)) (n Int))
   (! (= (psum L lo W1 wo1 true A n) (psum L lo W2 wo2 true A n))
      :pattern ((psum L lo W1 wo1 true A n) (psum L lo W2 wo2 true A n)))))
+; non-negative weights give a non-negative sum (explicit lemma instance)
+;@sig lem_isum_nonneg : row rowz asg int -> bool
+(declare-fun lem_isum_nonneg ((Array Int Int) Int (Array Int Int) Int Bool (Array Int Bool) Int) Bool)
+;@lemma isum_nonneg
+(assert (forall ((L (Array Int Int)) (lo Int) (W (Array Int Int)) (wo Int) (wn Bool) (A (Array Int Bool)) (n Int))
+  (! (and (lem_isum_nonneg L lo W wo wn A n)
+      (=> (or wn (forall ((j Int)) (! (=> (and (<= wo j) (< j (+ wo n))) (>= (select W j) 0)) :pattern ((select W j)))))
+          (>= (isum L lo W wo wn A n) 0)))
+     :pattern ((lem_isum_nonneg L lo W wo wn A n)))))
+;@sig lem_isum_le : row rowz asg int -> bool
+(declare-fun lem_isum_le ((Array Int Int) Int (Array Int Int) Int Bool (Array Int Bool) Int) Bool)
+;@lemma isum_le
+(assert (forall ((L (Array Int Int)) (lo Int) (W (Array Int Int)) (wo Int) (wn Bool) (A (Array Int Bool)) (n Int))
+  (! (and (lem_isum_le L lo W wo wn A n)
+      (=> (or wn (forall ((j Int)) (! (=> (and (<= wo j) (< j (+ wo n))) (>= (select W j) 0)) :pattern ((select W j)))))
+          (<= (isum L lo W wo wn A n) (wsum W wo wn n))))
+     :pattern ((lem_isum_le L lo W wo wn A n)))))
+; with positive weights the sum reaches the total weight exactly when every literal is true
+;@sig lem_isum_all : row rowz asg int -> bool
+(declare-fun lem_isum_all ((Array Int Int) Int (Array Int Int) Int Bool (Array Int Bool) Int) Bool)
+;@lemma isum_all
+(assert (forall ((L (Array Int Int)) (lo Int) (W (Array Int Int)) (wo Int) (wn Bool) (A (Array Int Bool)) (n Int))
+  (! (and (lem_isum_all L lo W wo wn A n)
+      (=> (or wn (forall ((j Int)) (! (=> (and (<= wo j) (< j (+ wo n))) (> (select W j) 0)) :pattern ((select W j)))))
+          (= (>= (isum L lo W wo wn A n) (wsum W wo wn n))
+             (forall ((j Int)) (! (=> (and (<= lo j) (< j (+ lo n))) (tvi A (select L j))) :pattern ((select L j)))))))
+     :pattern ((lem_isum_all L lo W wo wn A n)))))
